@@ -24,6 +24,7 @@ class Violation:
     op_index: int = -1
     op_kind: str = ""
     site: str = ""          # call site for laziness verdicts
+    tags: str = ""          # replay-stable facts about the configuration (config_tags)
 
     def signature(self) -> str:
         s = f"{self.invariant}|{self.cls}|{self.op_kind}|{self.symptom}"
@@ -34,7 +35,7 @@ class Violation:
     def to_json(self):
         return dict(property=self.property, invariant=self.invariant, cls=self.cls, symptom=self.symptom,
                     detail=self.detail, op_index=self.op_index, op_kind=self.op_kind, site=self.site,
-                    signature=self.signature())
+                    tags=self.tags, signature=self.signature())
 
 
 @dataclass
@@ -58,6 +59,18 @@ class RunResult:
         return dict(seed=self.seed, violations=[v.to_json() for v in self.violations],
                     stats=self.stats, coverage=self.coverage, harness_error=self.harness_error,
                     decision=self.decision_digest(), value=self.value_digest())
+
+
+def config_tags(cfg: dict) -> str:
+    """Facts about a configuration that known findings may be keyed on."""
+    tags = []
+    if cfg.get("lazy"):
+        tags.append("lazy")
+    for d in (cfg.get("descs") or {}).values():
+        if d.get("container") == "ds" and len({json.dumps(f) for f in d.get("fields", [])}) > 1:
+            tags.append("hetero_ds")
+            break
+    return ",".join(tags)
 
 
 def symptom_of(diffs: list[str]) -> str:
